@@ -240,6 +240,8 @@ def run(res, tier, seed):
     rows, _ = common.run_harness(["c04", "-seed", seed, "-n", n, "-modes", "all"], timeout=600)
     vmrows, _ = common.run_harness(["c04-vm", "-seed", seed], timeout=600)
     exprrows, _ = common.run_harness(["c15", "-seed", seed, "-n", 800 if tier == "quick" else 6000], timeout=600)
+    # (the rule predicates read the process text of a bare expression: leave out the rows that wrap it in a function / computed value)
+    exprrows = [r for r in exprrows if not r.get("wrapped")]
     calls = {}
     for r in rows:
         calls[r["call"]] = calls.get(r["call"], 0) + 1
